@@ -25,6 +25,7 @@ import (
 	"time"
 
 	"github.com/XiaoMi/Gaea/backend"
+	"github.com/XiaoMi/Gaea/mysql"
 	"github.com/XiaoMi/Gaea/verifshim/vrand"
 	"github.com/XiaoMi/Gaea/verifshim/vsched"
 
@@ -39,6 +40,9 @@ type nodeSpec struct {
 	W      int  `json:"w"`
 	Remote bool `json:"remote,omitempty"`
 	Down   bool `json:"down,omitempty"`
+	// GetFail: the replica's pool cannot hand out a connection (ConnectionPool.Get returns a
+	// connection error: pool exhausted / dial time-out). An environment answer, not a status.
+	GetFail bool `json:"getfail,omitempty"`
 }
 
 // kase is one sequential run: build the list with the shuffle answers in Tape, set every
@@ -61,6 +65,9 @@ type world struct {
 	dbi   *backend.DBInfo
 	pools []*fakepool.Pool
 	ns    []int // the n of every rand.Intn(n) asked while building
+	asked []int // indexes of the pools whose Get was called during the current selection, in order
+	// concurrent: several harness threads select at once (part b); asked is then meaningless
+	concurrent bool
 }
 
 // build makes fresh nodes, pools, DBInfo and balancers. The k-th rand.Intn(n) of
@@ -78,6 +85,14 @@ func build(nodes []nodeSpec, tape []int) *world {
 			st = backend.StatusDown
 		}
 		p := fakepool.New(fmt.Sprintf("n%d", i), dc)
+		i, getFail := i, n.GetFail
+		p.GetFn = func(p *fakepool.Pool) (backend.PooledConnect, error) {
+			w.asked = append(w.asked, i)
+			if getFail {
+				return nil, mysql.NewConnTypeError(p.AddrS, "resource pool timed out")
+			}
+			return p.NewConn(), nil
+		}
 		w.pools = append(w.pools, p)
 		dbi.Nodes = append(dbi.Nodes, &backend.NodeInfo{Address: p.AddrS, Datacenter: dc, Weight: n.W, ConnPool: p, Status: st})
 	}
@@ -105,11 +120,15 @@ func build(nodes []nodeSpec, tape []int) *world {
 	return w
 }
 
-// pick does one real selection; -1 = GetSlaveConn returned an error.
-func (w *world) pick(policy int) int {
+// pick does one real selection. got = the node whose connection was handed out (-1:
+// GetSlaveConn returned an error); asked = the nodes whose pool was asked for a connection
+// during this selection, in order (being asked for a connection IS being picked).
+func (w *world) pick(policy int) (got int, asked []int) {
+	w.asked = w.asked[:0]
 	pc, err := w.slice.GetSlaveConn(w.dbi, policy)
+	asked = append([]int{}, w.asked...)
 	if err != nil || pc == nil {
-		return -1
+		return -1, asked
 	}
 	c, ok := pc.(*fakepool.Conn)
 	if !ok {
@@ -117,11 +136,14 @@ func (w *world) pick(policy int) int {
 	}
 	for i, p := range w.pools {
 		if p == c.Pool {
-			return i
+			if !w.concurrent && (len(asked) == 0 || asked[len(asked)-1] != i) {
+				ev.Fatalf("connection of pool %d handed out but the pools asked were %v", i, asked)
+			}
+			return i, asked
 		}
 	}
 	ev.Fatalf("connection of an unknown pool")
-	return -1
+	return -1, asked
 }
 
 var whichAll = []string{"global", "local", "remote"}
@@ -252,7 +274,11 @@ func runOn(w *world, k kase) verdict {
 		for bi, b := range rel {
 			before[bi], _ = backend.VerifNextIndex(w.dbi, b)
 		}
-		p := w.pick(k.Policy)
+		got, asked := w.pick(k.Policy)
+		p := -1 // the selection of this call = the first pool asked
+		if len(asked) > 0 {
+			p = asked[0]
+		}
 		v.picks = append(v.picks, p)
 		for bi, b := range rel {
 			after, ok := backend.VerifNextIndex(w.dbi, b)
@@ -263,31 +289,38 @@ func runOn(w *world, k kase) verdict {
 				v.skipped = true
 			}
 		}
-		if p < 0 {
-			if ri.eligibleUp {
-				return fail("no_pick_although_eligible_up", wrapTag(straddle(i)),
-					fmt.Sprintf("call %d failed although a replica the policy may use is up", i))
+		poolFailed := false // a pool asked earlier in this call could not hand out a connection
+		for _, a := range asked {
+			n := k.Nodes[a]
+			switch {
+			case n.W == 0:
+				return fail("zero_weight_picked", wrapTag(straddle(i)), fmt.Sprintf("call %d picked node %d whose weight is 0 (pools asked: %v)", i, a, asked))
+			case n.Down && ri.eligibleUp:
+				return fail("down_picked", wrapTag(straddle(i)), fmt.Sprintf("call %d picked node %d which is down while an eligible replica is up (pools asked: %v)", i, a, asked))
+			case k.Policy == backend.LocalSlaveReadForce && n.Remote:
+				return fail("force_local_picked_remote", wrapTag(straddle(i)), fmt.Sprintf("call %d picked remote node %d under force-local (pools asked: %v)", i, a, asked))
+			case k.Policy == backend.LocalSlaveReadPrefer && n.Remote && ri.localServe && !poolFailed:
+				return fail("prefer_local_picked_remote", wrapTag(straddle(i)), fmt.Sprintf("call %d picked remote node %d under prefer-local although a local replica can serve (pools asked: %v)", i, a, asked))
 			}
-			continue
+			if n.Remote && k.Policy == backend.LocalSlaveReadPrefer {
+				v.skipped = true
+			}
+			if n.GetFail {
+				poolFailed = true
+				v.skipped = true
+			}
 		}
-		n := k.Nodes[p]
-		switch {
-		case n.W == 0:
-			return fail("zero_weight_picked", wrapTag(straddle(i)), fmt.Sprintf("call %d picked node %d whose weight is 0", i, p))
-		case n.Down && ri.eligibleUp:
-			return fail("down_picked", wrapTag(straddle(i)), fmt.Sprintf("call %d picked node %d which is down while an eligible replica is up", i, p))
-		case k.Policy == backend.LocalSlaveReadForce && n.Remote:
-			return fail("force_local_picked_remote", wrapTag(straddle(i)), fmt.Sprintf("call %d picked remote node %d under force-local", i, p))
-		case k.Policy == backend.LocalSlaveReadPrefer && n.Remote && ri.localServe:
-			return fail("prefer_local_picked_remote", wrapTag(straddle(i)), fmt.Sprintf("call %d picked remote node %d under prefer-local although a local replica can serve", i, p))
-		}
-		if n.Remote && k.Policy == backend.LocalSlaveReadPrefer {
-			v.skipped = true
+		if got < 0 && !poolFailed && ri.eligibleUp {
+			return fail("no_pick_although_eligible_up", wrapTag(straddle(i)),
+				fmt.Sprintf("call %d failed although a replica the policy may use is up and no pool refused a connection", i))
 		}
 	}
 	if ri.allUp && ri.L > 0 {
 		cnt := make([]int, len(k.Nodes))
 		for i, p := range v.picks {
+			if p < 0 {
+				return fail("no_pick_although_eligible_up", "no", fmt.Sprintf("call %d asked no pool although all replicas are up", i))
+			}
 			cnt[p]++
 			if i >= ri.L {
 				cnt[v.picks[i-ri.L]]--
@@ -349,6 +382,26 @@ func decodeList(idx, n int, weights []int) []nodeSpec {
 		ns[i] = nodeSpec{W: weights[d/4], Remote: d%4/2 == 1, Down: d%2 == 1}
 	}
 	return ns
+}
+
+// decodeListF: like decodeList with a fourth per-node dimension, GetFail.
+func decodeListF(idx, n int, weights []int) []nodeSpec {
+	ns := make([]nodeSpec, n)
+	per := len(weights) * 8
+	for i := n - 1; i >= 0; i-- {
+		d := idx % per
+		idx /= per
+		ns[i] = nodeSpec{W: weights[d/8], Remote: d%8/4 == 1, Down: d%4/2 == 1, GetFail: d%2 == 1}
+	}
+	return ns
+}
+
+func listsProductF(n int, weights []int) int {
+	p := 1
+	for i := 0; i < n; i++ {
+		p *= len(weights) * 8
+	}
+	return p
 }
 
 // tapes returns the shuffle tapes to try for one (list, policy): all answer vectors for the
@@ -476,6 +529,20 @@ func groupsFor(r *ev.Run) []group {
 	if r.Quick() {
 		w4 := []int{0, 1, 2}
 		groups = append(groups, group{"n=4 product with weights {0,1,2} x dc x status", listsProduct(4, w4), func(i int) []nodeSpec { return decodeList(i, 4, w4) }})
+	}
+	// environment answer "the pool of replica i cannot hand out a connection", combined with
+	// weights, datacenters and down-marked replicas
+	type fg struct {
+		n int
+		w []int
+	}
+	fgs := []fg{{2, []int{0, 1, 2}}, {3, []int{0, 1, 2}}, {4, []int{1}}}
+	if r.Thorough() {
+		fgs = []fg{{2, []int{0, 1, 2, 3, 4}}, {3, []int{0, 1, 2, 3, 4}}, {4, []int{0, 1, 2}}}
+	}
+	for _, g := range fgs {
+		g := g
+		groups = append(groups, group{fmt.Sprintf("n=%d product with weights %v x dc x status x pool-Get fails/works", g.n, g.w), listsProductF(g.n, g.w), func(i int) []nodeSpec { return decodeListF(i, g.n, g.w) }})
 	}
 	for n := 5; n <= 6; n++ {
 		dims := make([]int, 3*n)
@@ -730,9 +797,9 @@ func partA(r *ev.Run) {
 	r.Set("list_policy_cases_all_permutations", st.FullPerm)
 	r.Set("runs_started_near_counter_wrap", st.WrapRuns)
 	r.Set("groups", groupInfo)
-	r.Set("rule", fmt.Sprintf("part (a): every replica list of the groups listed under 'groups' x 3 local-read policies x shuffle answers (all permutations when the balancers in use have at most %d, else 5 fixed arrangements) x initial counters {0, 2^32-L-1} (all up, 3L+2 calls) or (some node down) {0,1,2^32-L-1..2^32-1} with 2L+2 calls in the thorough tier, {0,2^32-L-1,2^32-(L+1)/2,2^32-2,2^32-1} with L+2 calls in the quick tier when L>4; a run is non-trivial when at least two different nodes were picked or a call had to step over a down node / fall back to the remote balancer; distinct_nontrivial counts (for the runs starting at counter 0 or 1) distinct (policy, multiset of (weight, dc, status, times picked) over the nodes, failed calls) profiles of non-trivial runs, plus the distinct outcomes of the vsched scenarios of part (b)", permLimit))
+	r.Set("rule", fmt.Sprintf("part (a): every replica list of the groups listed under 'groups' x 3 local-read policies x shuffle answers (all permutations when the balancers in use have at most %d, else 5 fixed arrangements) x initial counters {0, 2^32-L-1} (all up, 3L+2 calls) or (some node down) {0,1,2^32-L-1..2^32-1} with 2L+2 calls in the thorough tier, {0,2^32-L-1,2^32-(L+1)/2,2^32-2,2^32-1} with L+2 calls in the quick tier when L>4; a run is non-trivial when at least two different nodes were picked or a call had to step over a down node / fall back to the remote balancer / met a pool that refused a connection; distinct_nontrivial counts (for the runs starting at counter 0 or 1) distinct (policy, multiset of (weight, dc, status, times picked) over the nodes, failed calls) profiles of non-trivial runs, plus the distinct outcomes of the vsched scenarios of part (b)", permLimit))
 	r.Assume("the round-robin counter is set through an injected accessor (values near 2^32 stand for a balancer that has served ~4.3e9 selections)")
-	r.Assume("fake pools always hand out a connection, so a selection fails only when the selection logic fails")
+	r.Assume("fake pools hand out a connection unless the list marks the replica's pool as failing (ConnTypeError from Get); being asked for a connection counts as being picked")
 	r.Assume("'a selection must succeed while a replica the policy may use is up' is read into 'a down replica is never picked while another eligible replica is up'")
 }
 
@@ -784,7 +851,7 @@ func profile(nodes []nodeSpec, policy int, v verdict) string {
 	}
 	var parts []string
 	for i, n := range nodes {
-		parts = append(parts, fmt.Sprintf("%d%v%v:%d", n.W, n.Remote, n.Down, cnt[i]))
+		parts = append(parts, fmt.Sprintf("%d%v%v%v:%d", n.W, n.Remote, n.Down, n.GetFail, cnt[i]))
 	}
 	sort.Strings(parts)
 	return fmt.Sprintf("%d|%s|f%d", policy, strings.Join(parts, ","), fails)
@@ -827,9 +894,11 @@ func vsetup(sc vscenario) {
 	ref := build(sc.Nodes, vtape(sc))
 	var seq []int
 	for i := 0; i < total; i++ {
-		seq = append(seq, ref.pick(sc.Policy))
+		g, _ := ref.pick(sc.Policy)
+		seq = append(seq, g)
 	}
 	vw = &vworld{sc: sc, w: build(sc.Nodes, vtape(sc)), seq: seq, got: make([][]int, len(sc.Threads))}
+	vw.w.concurrent = true
 }
 
 func multiset(ps []int) string {
@@ -844,7 +913,8 @@ func vbody() {
 		i, calls := i, calls
 		vsched.GoNamed(fmt.Sprintf("T%d", i), func() {
 			for c := 0; c < calls; c++ {
-				ww.got[i] = append(ww.got[i], ww.w.pick(ww.sc.Policy))
+				g, _ := ww.w.pick(ww.sc.Policy)
+				ww.got[i] = append(ww.got[i], g)
 			}
 		})
 	}
